@@ -1,0 +1,11 @@
+//go:build verif
+
+package descrypt
+
+// VerifTables returns copies of the DES tables.
+func VerifTables() (ie [8][16]uint64, cf [16][16]uint64, pcx [8][2][16][16]uint64, s [8][64]uint64, mask uint64) {
+	return ie3264, cf6464, pcxRot, spe, ksMask
+}
+
+// VerifKeySchedules exposes keySchedules.
+func VerifKeySchedules(key uint64) [8][2]uint64 { return keySchedules(key) }
